@@ -9,12 +9,14 @@
  *                               pairwise lp_interval_cmp, to_interval, pick_value
  *   C <itv1> <itv2>             lp_interval_cmp / _cmp_with_intersect (fresh and pre-used P) / bounds / cmp_value
  *   Q <set>                     integer queries on sets with rational end points given literally
+ *   A <set>                     integer queries and picks on sets with ALGEBRAIC / mixed end points (valio.h tokens)
  *
  * set syntax:  {}  |  itv(;itv)*      itv:  {e}  |  [e,e]  (e,e)  [e,e)  (e,e]
  * B/C end point e: rank or rank.variant;   Q end point e: -inf | +inf | i<z> | q<n>/<d> | d<a>/<k> (= a/2^k)
  * probes: '*' (all ranks) or a comma separated list of ranks.
  */
 #include "common.h"
+#include "valio.h"
 #include <unistd.h>
 #include <integer.h>
 #include <rational.h>
@@ -199,7 +201,7 @@ static const char* parse_endpoint(const char* s, const char* stops, int rankmode
   char buf[300]; size_t n = 0;
   while (*s && !strchr(stops, *s) && n + 1 < sizeof(buf)) buf[n++] = *s++;
   buf[n] = 0;
-  if (rankmode) {
+  if (rankmode == 1) {
     int r = 0, var = 0;
     if (sscanf(buf, "%d.%d", &r, &var) < 1) die("bad rank", buf);
     if (r < 0 || r >= NPOOL) die("rank out of range", buf);
@@ -209,6 +211,8 @@ static const char* parse_endpoint(const char* s, const char* stops, int rankmode
     { int seen = 0;
       for (int i = 0; i < ncand; ++i) if (cand[i] == r) seen = 1;
       if (!seen && ncand < (int)(sizeof(cand) / sizeof(cand[0]))) cand[ncand++] = r; }
+  } else if (rankmode == 2) {
+    if (!vio_parse(v, buf)) die("bad value token", buf);
   } else {
     value_of_spec(v, buf);
   }
@@ -229,8 +233,8 @@ static int parse_set(const char* s, int rankmode, ivspec_t* out) {
       I->lo_open = I->hi_open = 0; I->is_point = 1;
     } else if (*s == '(' || *s == '[') {
       I->lo_open = (*s == '(');
-      s = parse_endpoint(s + 1, ",", rankmode, &I->lo);
-      if (*s != ',') die("expected ,", s);
+      s = parse_endpoint(s + 1, rankmode == 2 ? "|" : ",", rankmode, &I->lo);
+      if (*s != (rankmode == 2 ? '|' : ',')) die("expected separator", s);
       s = parse_endpoint(s + 1, ")]", rankmode, &I->hi);
       if (*s != ')' && *s != ']') die("expected ) or ]", s);
       I->hi_open = (*s == ')');
@@ -456,6 +460,48 @@ static unsigned long ncases;
    256 MB quarantine of freed blocks; 16 MB still catches use-after-free of these small short-lived objects.
    (Defaults only: ASAN_OPTIONS of the environment still applies on top.) */
 const char* __asan_default_options(void) { return "quarantine_size_mb=16:malloc_context_size=5"; }
+/* A <set>: integer queries and picks on a set whose end points are valio tokens (algebraic numbers included);
+   interval syntax [e|e)  (e|e]  {e}  separated by ';' */
+static void op_A(void) {
+  static ivspec_t sp[MAXIV];
+  if (vntok != 2) { printf("BAD-CASE"); return; }
+  int n = parse_set(vtok[1], 2, sp);
+  lp_feasibility_set_t* s = set_of_specs(sp, n);
+  printf("ci:%d cnt:%ld pi:%d", lp_feasibility_set_contains_int(s) ? 1 : 0, lp_feasibility_set_count_int(s),
+         lp_feasibility_set_is_point_int(s) ? 1 : 0);
+  printf(" ici:");
+  for (size_t i = 0; i < s->size; ++i) putchar(lp_interval_contains_int(&s->intervals[i]) ? '1' : '0');
+  printf(" icnt:");
+  for (size_t i = 0; i < s->size; ++i) printf("%s%ld", i ? "," : "", lp_interval_count_int(&s->intervals[i]));
+  printf(" pk:");
+  if (s->size == 0) printf("-");
+  else {
+    lp_value_t v; lp_value_construct_int(&v, 12345);          /* pre-used output */
+    lp_feasibility_set_pick_value(s, &v);
+    vio_print(&v);
+    lp_value_destruct(&v);
+  }
+  printf(" ipk:");
+  for (size_t i = 0; i < s->size; ++i) {
+    lp_value_t v; lp_value_construct_zero(&v);
+    lp_interval_pick_value(&s->intervals[i], &v);
+    if (i) putchar(';');
+    vio_print(&v);
+    lp_value_destruct(&v);
+  }
+  if (s->size == 0) printf("-");
+  printf(" pf:");
+  if (s->size == 0) printf("-");
+  else {
+    lp_value_t v; lp_value_construct_zero(&v);
+    lp_feasibility_set_pick_first_value(s, &v);
+    vio_print(&v);
+    lp_value_destruct(&v);
+  }
+  lp_feasibility_set_delete(s);
+  free_specs(sp, n);
+}
+
 int main(void) {
   pool_init();
   while (next_case()) {
@@ -469,6 +515,7 @@ int main(void) {
     if (is_op("B")) op_B();
     else if (is_op("C")) op_C();
     else if (is_op("Q")) op_Q();
+    else if (is_op("A")) op_A();
     else if (is_op("POOL")) printf("%d", NPOOL);
     else printf("UNKNOWN-OP");
     end_case();
